@@ -293,24 +293,10 @@ fn build_nd(axes: &[Vec<f64>], coeffs: &[f64]) -> (ArrayD<f64>, Vec<usize>) {
     (arr, shape)
 }
 
-fn check_generic(axes: &[Vec<f64>], coeffs: &[f64], points: &[Vec<Coord>], o: &mut Outcome) {
+/// the fixed-dimension interpolator (1-D, 2-D, 3-D) over the same table, when there is one
+fn fixed_interp(axes: &[Vec<f64>], values: &ArrayD<f64>) -> Option<Interpolator> {
     let d = axes.len();
-    o.label(format!("generic-{}d", d));
-    o.label_if(
-        axes.iter().any(|a| {
-            a.len() > 2 && a.windows(2).map(|w| w[1] - w[0]).any(|s| (s - (a[1] - a[0])).abs() > 1e-12)
-        }),
-        "nonuniform",
-    );
-    let (values, _shape) = build_nd(axes, coeffs);
-    let nd = match InterpND::new(axes.to_vec(), values.clone()) {
-        Ok(i) => Interpolator::InterpND(i),
-        Err(e) => {
-            o.fail("C14/generic/nd-construction", json!({"error": e}));
-            return;
-        }
-    };
-    let fixed: Option<Interpolator> = match d {
+    match d {
         1 => Interp1D::new(
             axes[0].clone(),
             (0..axes[0].len()).map(|i| values[[i]]).collect(),
@@ -341,7 +327,27 @@ fn check_generic(axes: &[Vec<f64>], coeffs: &[f64], points: &[Vec<Coord>], o: &m
         .ok()
         .map(Interpolator::Interp3D),
         _ => None,
+    }
+}
+
+fn check_generic(axes: &[Vec<f64>], coeffs: &[f64], points: &[Vec<Coord>], o: &mut Outcome) {
+    let d = axes.len();
+    o.label(format!("generic-{}d", d));
+    o.label_if(
+        axes.iter().any(|a| {
+            a.len() > 2 && a.windows(2).map(|w| w[1] - w[0]).any(|s| (s - (a[1] - a[0])).abs() > 1e-12)
+        }),
+        "nonuniform",
+    );
+    let (values, _shape) = build_nd(axes, coeffs);
+    let nd = match InterpND::new(axes.to_vec(), values.clone()) {
+        Ok(i) => Interpolator::InterpND(i),
+        Err(e) => {
+            o.fail("C14/generic/nd-construction", json!({"error": e}));
+            return;
+        }
     };
+    let fixed: Option<Interpolator> = fixed_interp(axes, &values);
     if d <= 3 && fixed.is_none() {
         o.fail("C14/generic/fixed-dimension-construction", json!({"dim": d}));
         return;
@@ -444,6 +450,90 @@ fn check_generic(axes: &[Vec<f64>], coeffs: &[f64], points: &[Vec<Coord>], o: &m
                         o.fail("C14/generic/dummy-axis-embedding-error", json!({"error": e}));
                         return;
                     }
+                }
+            }
+        }
+    }
+    check_bumpy(axes, coeffs, points, o);
+}
+
+/// a table that is *not* multilinear (node value = polynomial + a pseudo-random bump per node):
+/// extrapolating from a neighbouring cell no longer gives the right answer, so a wrong cell
+/// index shows.  Reference: multilinear interpolation over the corners of the bracketing cell,
+/// computed here; the result must also lie within the range of those corners.
+fn check_bumpy(axes: &[Vec<f64>], coeffs: &[f64], points: &[Vec<Coord>], o: &mut Outcome) {
+    let d = axes.len();
+    let shape: Vec<usize> = axes.iter().map(|a| a.len()).collect();
+    let amp = 1.0 + coeffs.iter().map(|c| c.abs()).fold(0.0, f64::max);
+    let bump = |idx: &[usize]| -> f64 {
+        let mut h: u64 = 0x9E37_79B9_7F4A_7C15 ^ (coeffs[0].to_bits());
+        for (k, i) in idx.iter().enumerate() {
+            h = (h ^ ((*i as u64 + 1) << (8 * k as u64))).wrapping_mul(0xBF58_476D_1CE4_E5B9);
+            h ^= h >> 29;
+        }
+        amp * (((h >> 11) as f64 / (1u64 << 53) as f64) * 2.0 - 1.0)
+    };
+    let values = ArrayD::from_shape_fn(IxDyn(&shape), |idx| {
+        let ix: Vec<usize> = (0..d).map(|i| idx[i]).collect();
+        let p: Vec<f64> = (0..d).map(|i| axes[i][ix[i]]).collect();
+        poly(coeffs, &p).0 + bump(&ix)
+    });
+    let nd = match InterpND::new(axes.to_vec(), values.clone()) {
+        Ok(i) => Interpolator::InterpND(i),
+        Err(_) => return, // construction already judged on the multilinear table
+    };
+    let fixed = fixed_interp(axes, &values);
+    for pt in points {
+        let p: Vec<f64> = pt.iter().zip(axes).map(|(c, a)| c.value(a)).collect();
+        if p.iter().zip(axes).any(|(v, a)| *v < a[0] || *v > a[a.len() - 1]) {
+            continue;
+        }
+        // bracketing cell per axis (on a grid line either neighbour gives the same value)
+        let cell: Vec<usize> = p.iter().zip(axes).map(|(v, a)| cells_of(a, *v)[0]).collect();
+        let mut want = 0.0;
+        let (mut lo, mut hi) = (f64::INFINITY, f64::NEG_INFINITY);
+        let mut mag = 0.0f64;
+        for mask in 0..(1usize << d) {
+            let mut w = 1.0;
+            let mut ix = vec![0usize; d];
+            for k in 0..d {
+                let (a0, a1) = (axes[k][cell[k]], axes[k][cell[k] + 1]);
+                let t = ((p[k] - a0) / (a1 - a0)).clamp(0.0, 1.0);
+                if mask >> k & 1 == 1 {
+                    w *= t;
+                    ix[k] = cell[k] + 1;
+                } else {
+                    w *= 1.0 - t;
+                    ix[k] = cell[k];
+                }
+            }
+            let v = values[IxDyn(&ix)];
+            want += w * v;
+            lo = lo.min(v);
+            hi = hi.max(v);
+            mag = mag.max(v.abs());
+        }
+        let tol = 1e-9 * mag + 1e-12;
+        let mut results: Vec<(&str, Result<f64, String>)> = vec![("nd", nd.interpolate(&p, &IStrategy::Linear))];
+        if let Some(f) = &fixed {
+            results.push(("fixed", f.interpolate(&p, &IStrategy::Linear)));
+        }
+        o.label("bumpy-table-point");
+        for (name, r) in &results {
+            if let Ok(v) = r {
+                if *v < lo - tol || *v > hi + tol {
+                    o.fail(
+                        format!("C14/generic/{}/value-outside-the-range-of-the-surrounding-nodes", name),
+                        json!({"dim": d, "point": p, "axes": axes, "cell": cell, "got": v, "corner_min": lo, "corner_max": hi}),
+                    );
+                    return;
+                }
+                if (v - want).abs() > tol {
+                    o.fail(
+                        format!("C14/generic/{}/differs-from-interpolation-over-the-bracketing-cell", name),
+                        json!({"dim": d, "point": p, "axes": axes, "cell": cell, "got": v, "expected": want}),
+                    );
+                    return;
                 }
             }
         }
